@@ -29,6 +29,11 @@ def check_term(sh, which, term, width, frac, strat):
         sh.counters['layout raised (judged by C04)'] += 1
         return
     st = R.Stream(sdocs)
+    if any(it[0] == 'nl' and it[1] < 0 for it in st.items):
+        # a negative running indentation (negative nest offsets) makes the engine's column differ from the rendered column:
+        # page / ribbon arithmetic is not meaningful there; such layouts are left to C04 (structural membership only)
+        sh.counters['layouts skipped: negative indentation'] += 1
+        return
     smart = strat == 'smart'
     try:
         base = R.Matcher(term, st, width, frac, smart, strict=False)
